@@ -52,9 +52,9 @@ def props_of_disagreement(line):
         p = ['C18']
         if 'Inc' in (ref, real): p.append('C10')
         return p
-    if ref == 'Good': p = ['C03'] + (['C02'] if real == 'Inc' else [])
-    elif ref == 'Bad': p = ['C09']
-    else: p = ['C02', 'C10', 'C03']          # decides on a proper prefix: depends on segmentation
+    if ref == 'Good': p = ['C03'] + (['C02'] if real == 'Inc' else [])      # a well-formed item is rejected / never completes / decoded differently
+    elif ref == 'Bad': p = ['C09']                                           # a malformed item is accepted (fabricated data) or waits for more input
+    else: p = ['C02', 'C03']                                                 # decides on a proper prefix: the result depends on the segmentation
     return p
 
 
@@ -88,6 +88,7 @@ def run(prop, tier, seed, scratch, root):
             which = d.split(' ')[0]
             stream = ('4f4b204d504420300a' + hx) if which == 'component' else hx     # "OK MPD 0\n" + input
             rr = RP.run_bin('stream_case', scratch, [stream, '-'])
+            rr.pop('full_output', None)
             row['violations'].append({'props': ps, 'ob': 'C03.parser.conformance', 'fn': 'parser::' + ('ParsedComponent::parse' if which == 'component' else 'greeting'),
                                       'message': 'the real nom parser disagrees with the verified reference parser (assumed contract refuted)', 'where': 'mpd_protocol/src/parser.rs',
                                       'rendered': d, 'input': {'kind': which, 'hex': hx}, 'replayed': rr, 'replay_bin': 'stream_case', 'replay_args': [stream, '-']})
@@ -110,7 +111,7 @@ def search(prop, tier, seed, scratch, root, cases=None):
     if not rr.get('ran'):
         row['undecided'] = rr.get('reason', 'search did not run'); return row
     try:
-        j = json.loads(rr['output'].strip().split('\n')[-1])
+        j = json.loads(rr.get('full_output', rr['output']).strip().split('\n')[-1])
     except Exception:
         row['undecided'] = 'search output unreadable: ' + rr.get('output', '')[-200:] + rr.get('stderr', '')[-200:]; return row
     if not rr['fails']:
@@ -121,6 +122,9 @@ def search(prop, tier, seed, scratch, root, cases=None):
     row['deviation'] = j
     stream, cuts = j['stream_hex'], j.get('cuts') or '-'
     rep = RP.run_bin('stream_case', scratch, [stream, cuts])
+    rep.pop('full_output', None)
+    j = {k: (v if len(str(v)) < 3000 else str(v)[:1500] + ' ... ' + str(v)[-1000:]) for k, v in j.items()}
+    row['deviation'] = j
     row['violations'].append({'props': j.get('props', []), 'ob': 'wire.search', 'fn': 'Connection/AsyncConnection', 'message': 'real connection deviates from the oracle',
                               'where': 'mpd_protocol', 'rendered': json.dumps(j)[:3000], 'input': {'stream_hex': stream, 'cuts': cuts}, 'replayed': rep,
                               'replay_bin': 'stream_case', 'replay_args': [stream, cuts]})
